@@ -95,7 +95,11 @@ class Ctx:
         tag = tag or module
         meta = self.path(f"tlc-{tag}-{int(time.time()*1000)%100000000}")
         out = meta + ".out"
-        jopts = ["-Xss512m", f"-Xmx{heap}", "-XX:+UseParallelGC"]
+        # few GC / JIT threads per JVM: many TLC processes run side by side (16 shards, several checks)
+        if workers <= 2:
+            jopts = ["-Xss512m", f"-Xmx{heap}", "-XX:+UseSerialGC", "-XX:CICompilerCount=2"]
+        else:
+            jopts = ["-Xss512m", f"-Xmx{heap}", "-XX:+UseParallelGC", "-XX:ParallelGCThreads=4"]
         if deque:
             jopts.append("-Dtlc2.tool.queue.IStateQueue=StateDeque")
         cmd = ["java"] + jopts + ["-cp", JAR, "tlc2.TLC", "-workers", str(workers), "-metadir", meta,
